@@ -26,7 +26,7 @@ func init() {
 			"horizon: queries up to 3 days of playing time (whatever the tick count), tempo events in a single track",
 			"inverse domain: durations below 2^40 microseconds and tick rates below 10^7 ticks per second (statement)",
 		},
-		Require: []string{"lookahead_queries_inside_do", "tracks_with_events_2^32_ticks_apart", "track_selection_reads", "other_events_with_delta_between_tempo_events", "maps", "queries", "border_queries", "monotonic_pairs", "repeated_tick_maps", "late_first_event_maps", "do_events_compared", "inverse_triples", "queries_beyond_2^32_ticks", "do_filtered_events_compared", "tempo_track_not_first", "format2_maps", "large_tempo_maps", "tempo_maps_with_more_than_32768_events"},
+		Require: []string{"lookahead_queries_inside_do", "tracks_with_events_2^32_ticks_apart", "track_selection_reads", "other_events_with_delta_between_tempo_events", "maps", "queries", "border_queries", "monotonic_pairs", "repeated_tick_maps", "late_first_event_maps", "do_events_compared", "inverse_triples", "queries_beyond_2^32_ticks", "do_filtered_events_compared", "tempo_track_not_first", "format2_maps", "large_tempo_maps", "tempo_maps_with_more_than_32768_events", "undecodable_tempo_events_between_tempo_changes"},
 		Run:     runC11,
 	})
 }
@@ -93,11 +93,16 @@ func runC11(c *mon.Ctx) {
 					d2 = uint32(r.Intn(int(res)*4 + 1))
 				}
 				var om []byte
-				switch r.Intn(3) {
+				switch r.Intn(4) {
 				case 0:
 					om = []byte{0x90, byte(k & 127), 1}
 				case 1:
 					om = ref.Meta(0x06, []byte("m"))
+				case 2:
+					// a tempo event that cannot be decoded (fewer than three data bytes) is no tempo change; it is an event like
+					// any other between the tempo changes
+					om = ref.Meta(0x51, r.Bytes(r.Intn(3)))
+					c.Count("undecodable_tempo_events_between_tempo_changes", 1)
 				default:
 					om = ref.Meta(0x58, []byte{3, 2, 24, 8})
 				}
